@@ -201,6 +201,12 @@ def run_for_property(prop, tier, scratch, seed=0, only=None):
                     out.append(rec)
                     continue
                 r = hit[0]
+                only_unwind = (not r["ok"] and "unwinding assertion" in r["text"]
+                               and not re.search(r"Failed Checks: (?!unwinding assertion)", r["text"]))
+                if only_unwind:
+                    rec["inconclusive"] = "harness %s: only unwinding assertions failed (the stated bound is too small for this tree; not a violation)" % h["name"]
+                    out.append(rec)
+                    continue
                 if not r["ok"] and ("CBMC timed out" in r["text"] or "out of memory" in r["text"].lower()):
                     rec["inconclusive"] = "harness %s: CBMC timed out / out of memory (limit %s)" % (
                         h["name"], os.environ.get("VERIF_KANI_HARNESS_TIMEOUT", "900s"))
